@@ -159,3 +159,27 @@ Example C05_lone_other_witness :
   = POk [[(w_x, PluralV Cardinal 2 [(One, 1)])]; [(w_x, PluralV Cardinal 3 [])]].
 Proof. vm_compute. reflexivity. Qed.
 
+
+(** ** The reactive plural macros follow the context (machines of Runtime/Context.v, accessor flavours of Runtime/ContextAcc.v)
+    `t_plural!(e, count = n, f1 => v1, .., _ => d)` and `t_plural_ordinal!` return a closure that reads the locale of the
+    context each time it is called; the `tu_` forms are evaluated in place.  [cat] is the CLDR oracle over the locales of
+    the `Locale` enum (by index), [arms] what the macro's `match` yields for a category, [n] the count. *)
+From LI Require Import Runtime.Context.
+From LI Require Import Runtime.ContextAcc.
+From LI Require Import Runtime.ContextAccProofs.
+
+(** for every history of set_locale / set_locale_untracked / scopes / sub-contexts / flushes, every kind of context
+    expression and every tracked or untracked plural macro [fa]: the accessor created on handle [h] after [pre] renders,
+    after any continuation [post], the arm of the category CLDR assigns to the count for the locale its context shows at
+    that moment — not for the locale the context held when the macro expression was evaluated *)
+Theorem C05_accessor_current_locale :
+  forall (operand T : Type) (cat : N -> rule -> operand -> form) (arms : form -> T) (r : rule) (n : operand)
+         l0 con pre h fa fb post,
+  let a0 := a_run (a_init l0 con) (map erase pre) in
+  (h < a_nh a0)%nat -> fl_frozen fa = false ->
+  let xops := pre ++ XAcc h fa fb :: post in
+  let s := fst (xc_run (c_init l0 con, []) xops) in
+  let a := a_run (a_init l0 con) (map erase xops) in
+  let k := a_nacc a0 in
+  (k < c_nacc s)%nat /\ render_with (fun l => arms (cat l r n)) s k = arms (cat (a_loc a (a_hctx a0 h)) r n).
+Proof. exact (fun operand T cat arms r n => @accessor_renders_current_text T (fun l => arms (cat l r n))). Qed.
